@@ -414,6 +414,7 @@ def colliding_optionals(G, want_dup_empty=False):
     optionals" case.  Aliases do not distinguish alternatives (`A | A -> x` is a duplicate)."""
     found = [False]
     dup_empty = [False]
+    has_empty = [False]
     by_pat = {}
     for t in G.get('terms', []):
         by_pat.setdefault(tuple(t['pat']), t['name'])
@@ -485,9 +486,19 @@ def colliding_optionals(G, want_dup_empty=False):
         for a in r['alts']:
             allseq.extend(seqs_alt(a))
         check(allseq)
+        if () in allseq:
+            has_empty[0] = True
+    if want_dup_empty == 'has-empty':
+        return has_empty[0]
     if want_dup_empty:
         return dup_empty[0]
     return found[0]
+
+
+def has_directly_empty_alternative(G):
+    """some rule, once [..] / ? / groups / small ~n..m are multiplied out the way lark does it, has an alternative that
+    is literally empty (r: [A] has one, r: B [A] has none)"""
+    return colliding_optionals(G, want_dup_empty='has-empty')
 
 
 def duplicate_empty_alternatives(G):
